@@ -10,7 +10,8 @@ Atoms ==
     I(TRUE, <<57, 48, 48, 55, 49, 57, 57, 50, 53, 52, 55, 52, 48, 57, 57, 51>>) } \cup
   { [t |-> "float", txt |-> x] : x \in { <<49, 46, 53>>, <<45, 48, 46, 50, 53>>, <<49, 101, 43, 51, 48, 48>>, <<48, 46, 48>> } } \cup
   { [t |-> "bool", v |-> TRUE], [t |-> "bool", v |-> FALSE], [t |-> "null"] } \cup
-  { [t |-> "bytes", b |-> x] : x \in { <<>>, <<97>>, <<49, 58>>, <<44>>, <<49, 50, 58, 97, 44>>, <<35, 93>>, <<48, 58, 126>>, <<0, 255>> } } \cup
+  { [t |-> "bytes", b |-> x] : x \in { <<>>, <<97>>, <<49, 58>>, <<44>>, <<49, 50, 58, 97, 44>>, <<35, 93>>, <<48, 58, 126>>, <<0, 255>>,
+                                   <<10>>, <<97, 10, 98>> } } \cup              \* (payloads containing the separator a reader may be told to ignore)
   { [t |-> "text", u |-> x] : x \in { <<>>, <<97>>, <<207, 128>>, <<97, 226, 130, 172>>, <<36, 44>> } }
 Keys == { <<107>>, <<97, 49>> }
 Lists(S) == { [t |-> "list", xs |-> <<>>] } \cup { [t |-> "list", xs |-> <<a>>] : a \in S } \cup { [t |-> "list", xs |-> <<a, b>>] : a \in S, b \in S }
